@@ -9,6 +9,7 @@ from __future__ import annotations
 import contextlib
 import os
 import io
+import bisect
 import math
 import random
 import warnings
@@ -234,6 +235,13 @@ def gen_subdaily(rng: random.Random):
     start = pd.Timestamp(rng.choice(STARTS), tz=tz)
     if rng.random() < 0.3:
         start = start + pd.Timedelta(minutes=freq * rng.randrange(1, (1440 // freq)))   # series starting mid-day
+    if rng.random() < 0.25:
+        # a feed stamped on the UTC grid and converted to local time: in a zone whose offset is not a whole number of reading
+        # intervals (India +5:30, Nepal +5:45, ...) the readings sit at hh:30 / hh:45 local and one of them straddles local midnight
+        tz = rng.choice(["Asia/Kolkata", "Asia/Kathmandu", "Australia/Darwin", "America/St_Johns"])
+        start = pd.Timestamp(rng.choice(STARTS), tz=tz)
+        off_min = int(start.utcoffset().total_seconds() // 60)
+        start = start + pd.Timedelta(minutes=(-off_min) % freq)
     ndays = rng.choice([6, 9, 12])
     idx = pd.date_range(start, start.normalize() + pd.Timedelta(days=ndays + 1), freq=f"{freq}min", inclusive="left")
     idx = idx[idx < (start.normalize().tz_localize(None) + pd.Timedelta(days=ndays)).tz_localize(tz)]
@@ -353,6 +361,7 @@ def oracle_subdaily(case, data, idx, vals, miss):
     days = sorted(by_day)
     fails, finding = [], []
     first_day = days[0]
+    mins = [minute(t) for t in idx]
     for day in days[:-1]:
         rows = by_day[day]
         d0 = rows[0][1].normalize()
@@ -362,8 +371,23 @@ def oracle_subdaily(case, data, idx, vals, miss):
             total_slots = len(rows)          # no gaps, whole days at one interval each: every day is fully covered by its own readings
         present = [(i, t, v) for i, t, v in rows if i not in miss]
         n_present = len(present)
-        s = sum((v for _, _, v in present), Fraction(0))
-        cov = Fraction(n_present, total_slots)
+        if case.get("switch"):
+            s = sum((v for _, _, v in present), Fraction(0))
+            cov = Fraction(n_present, total_slots)
+        else:
+            # each reading is a constant rate over [its stamp, the next stamp): the part of it inside the day belongs to the day
+            # (for stamps aligned with local midnight this is the plain sum of the day's readings)
+            m0, m1 = minute(d0), minute(d1)
+            s, covered = Fraction(0), 0
+            lo = max(0, bisect.bisect_right(mins, m0) - 1)
+            hi = min(len(mins) - 1, bisect.bisect_left(mins, m1))
+            for i in range(lo, hi):
+                a, b = mins[i], mins[i + 1]
+                ov = max(0, min(b, m1) - max(a, m0))
+                if ov and i not in miss:
+                    s += vals[i] * Fraction(ov, b - a)
+                    covered += ov
+            cov = Fraction(covered, m1 - m0)
         if cov > Fraction(1, 2):
             want = float(s / cov)
         else:
